@@ -1778,8 +1778,14 @@ class Compiler:
             # place of the slot in the macro); neither the stream of
             # the function it is defined in, nor that of a translation
             # block it is written in, is the right one.
+            # It also converts (and translates) inserted values with its
+            # own i18n settings: the conversion functions read those as
+            # free variables and are therefore defined here as well.
             body = [TranslationContext(
-                template("__append = __stream.append") + body
+                template("__append = __stream.append") +
+                emit_func_convert("__convert") +
+                emit_func_convert_and_escape("__quote") +
+                body
             )]
 
             assert self._current_slot.pop() == slot.name
